@@ -470,6 +470,77 @@ pub fn run(args: &Args) -> i32 {
         merge(&findings, local);
     });
 
+    // ---- Part F: explicit-state walk of the round-start graph (general regime) ----------------
+    // state = the sequence number a round starts at; transition = one real round of a given size.
+    // Breadth-first from the boundary initial sequences with the size alphabet below (it reaches
+    // every start between the initial sequence and the wrap threshold in at most a few rounds);
+    // EVERY (start, size) pair visited is one monitored execution - in particular every reachable
+    // start is followed by a round of the full 512 numbers.
+    let sizes_f: [usize; 11] = [512, 511, 510, 258, 257, 256, 255, 254, 3, 2, 1];
+    let mut graph_inits: Vec<u16> = if tier == Tier::Thorough { vec![64511, 64256, 64000, 63999] } else { vec![64511] };
+    graph_inits.extend(&beyond);
+    let mut graph_states = 0u64;
+    let mut graph_cap_hit = false;
+    for &init in &graph_inits {
+        let mut seen: std::collections::BTreeMap<u16, Vec<usize>> = std::collections::BTreeMap::new();
+        seen.insert(init, vec![]);
+        let mut frontier: Vec<(u16, Vec<usize>)> = vec![(init, vec![])];
+        while !frontier.is_empty() {
+            let results: Mutex<Vec<(u16, Vec<usize>)>> = Mutex::new(vec![]);
+            mc::par_for(frontier.len(), mc::workers(), |fi| {
+                let (start, path) = &frontier[fi];
+                let mut local = Findings::new();
+                let mut nodes = BTreeSet::new();
+                let (mut rounds, mut execs, mut sends) = (0u64, 0u64, 0u64);
+                let mut succ = vec![];
+                for &n in &sizes_f {
+                    let mut sizes = path.clone();
+                    sizes.push(n);
+                    sizes.push(1);
+                    let ctx = json!({"check":"C07","part":"F","initial_sequence":init,"round_start":start,"round_sizes":sizes});
+                    let o = strat::run_strategy(tcp_cfg(init, &sizes, vec![]), Chooser::new(&[], 0));
+                    execs += 1;
+                    sends += monitor(&o, init, sizes.len(), &ctx, &mut local);
+                    rounds += o.world.publishes.len() as u64;
+                    nodes.insert((0u8, *start, n as u16));
+                    if o.panic.is_none() && o.result.is_ok() {
+                        if let Some(s) = o.world.sends.iter().find(|s| s.round == sizes.len() - 1) {
+                            let mut p = path.clone();
+                            p.push(n);
+                            succ.push((s.seq, p));
+                        }
+                    }
+                }
+                results.lock().unwrap().extend(succ);
+                let mut t = totals.lock().unwrap();
+                t.0.extend(nodes);
+                t.1 += rounds;
+                t.2 += execs;
+                t.3 += sends;
+                drop(t);
+                merge(&findings, local);
+            });
+            let mut next = results.into_inner().unwrap();
+            next.sort();
+            frontier = vec![];
+            for (s, p) in next {
+                if seen.len() >= 1500 {
+                    graph_cap_hit = true;
+                    break;
+                }
+                if !seen.contains_key(&s) {
+                    seen.insert(s, p.clone());
+                    frontier.push((s, p));
+                }
+            }
+        }
+        graph_states += seen.len() as u64;
+    }
+    rep.set("round_start_graph_states", json!(graph_states));
+    if graph_cap_hit {
+        rep.cap_hit = Some("round-start graph: more than 1500 distinct round starts from one initial sequence".into());
+    }
+
     // ---- Part E: Dublin/IPv6 at wire level: payload length = sequence - initial + 6 and fits --
     let mut wire_checked = 0u64;
     {
@@ -524,7 +595,7 @@ pub fn run(args: &Args) -> i32 {
     rep.set("distinct_nontrivial", json!(nodes.len()));
     rep.set("stale_response_differentials", json!(diffs));
     rep.set("wire_level_datagrams_checked", json!(wire_checked));
-    rep.set("rule", json!("state = (regime, round-start sequence, round size); transition = one round of the real Strategy::run. Boundary initial sequences = the fixed list below 64512 + whatever Builder::build accepts above 64511 (all 1024 values asked). A: from boundary initial sequences, first round r1 then a round of every size n in 1..=512 (TCP re-issue bursts), + capacity (513th slot => InsufficientCapacity, 512 fine); after the n-round a response naming its first/middle/last sequence is delivered in the next round and the published rounds must equal those of a run where that response names 65535 (never valid). C: constant-size walks through two wrap-arounds for every size. D: Dublin/IPv6 regime, every probes-per-round value, stale-response differential at each wrap. E: wire level Dublin/IPv6 payload length. Monitor: consecutive, < 65535, <= 512 per round, next round starts at last+1 or the initial sequence, round ids"));
+    rep.set("rule", json!("state = (regime, round-start sequence, round size); transition = one round of the real Strategy::run. Boundary initial sequences = the fixed list below 64512 + whatever Builder::build accepts above 64511 (all 1024 values asked). A: from boundary initial sequences, first round r1 then a round of every size n in 1..=512 (TCP re-issue bursts), + capacity (513th slot => InsufficientCapacity, 512 fine); after the n-round a response naming its first/middle/last sequence is delivered in the next round and the published rounds must equal those of a run where that response names 65535 (never valid). C: constant-size walks through two wrap-arounds for every size. D: Dublin/IPv6 regime, every probes-per-round value, stale-response differential at each wrap. E: wire level Dublin/IPv6 payload length. F: breadth-first walk of the round-start graph from the boundary initial sequences with round sizes {512,511,510,258,257,256,255,254,3,2,1}: every reachable round start x every size is one monitored execution. Monitor: consecutive, < 65535, <= 512 per round, next round starts at last+1 or the initial sequence, round ids"));
     rep.sample(json!({"part":"A","initial_sequence":64511,"round_sizes":[255,258,3,2],"stale_sequence":"first of round 1, delivered at the first receive of round 2"}));
     rep.sample(json!({"part":"D","initial_sequence":33434,"probes_per_round":171,"note":"wraps every third round"}));
     rep.assumptions = vec!["round sizes above 254 are produced by TCP AddressInUse re-issue bursts at the Network seam".into()];
